@@ -44,38 +44,39 @@ Print Assumptions C09_prefix_count.
    plain paragraphs of one or more lines, ATX headings, fenced code blocks, block quotes and single-item lists): parsing the spelled
    text with the Markdown renderer's token sets (Document(lines), with the fuel Document really gives) and
    rendering the tree without a line limit writes back exactly the text - so the output has the same
-   meaning, is a fixed point, and the normal form is reproduced exactly.  rt_ok asks that a fenced block is
-   not empty and that its lines do not start (after spaces) with a white-space character: the statement is
-   false without them (C09_fragment_round_trip_needs_side_conditions), which are two of the recorded findings. *)
+   meaning, is a fixed point, and the normal form is reproduced exactly.  There is no side condition: the two the
+   theorem first needed (a fenced block is not empty; its lines do not begin with white space) were defects of the
+   renderer, found as the hypotheses the proof forced, and are repaired (fix: 50fc060, 1070095) -
+   C09_fragment_round_trip_former_findings evaluates the two inputs. *)
 From Mistletoe Require Import Model.Parser Spec.Fragment Proofs.ListLaw Proofs.FragmentP Proofs.RoundTrip.
 Local Open Scope Z_scope.
 
-Theorem C09_fragment_round_trip : forall t, wf_b t = true -> rt_ok t = true ->
+Theorem C09_fragment_round_trip : forall t, wf_b t = true ->
   render_md (mkMopts false) None (fst (fst (parse_lines cfg_markdown (text_of (spell t))))) = concat (text_of (spell t)).
 Proof. exact fragment_round_trip. Qed.
 Print Assumptions C09_fragment_round_trip.
 
 Theorem C09_fragment_round_trip_hypotheses :
   let fence := FFence 96 3 [SLine 2 120 $" = 1"; SBlank; SLine 0 35 $" not a heading"] in
-  let t1 := FItem (MBullet 45) 2 [FPara 97 $"b" []; FQuote [FPara 99 $"d" []; FItem (MOrdered $"12" 41) 1 [FPara 101 [] []; fence]; FPara 103 [] []]; FPara 102 [] []] in
+  let t1 := FItem (MBullet 45) 2 [FPara 97 $"b" [ $"second line" ]; FQuote [FHead 3 99 $"d"; FItem (MOrdered $"12" 41) 1 [FPara 101 [] []; fence]; FPara 103 [] []]; FPara 102 [] []] in
   let t2 := FQuote [FQuote [FPara 97 [] []]; fence; FPara 98 [] []; t1] in
-  wf_b t2 = true /\ rt_ok t2 = true.
+  wf_b t2 = true /\ depth t2 = 4%nat.
 Proof. exact round_trip_instance. Qed.
 Print Assumptions C09_fragment_round_trip_hypotheses.
 
-Theorem C09_fragment_round_trip_needs_side_conditions :
+Theorem C09_fragment_round_trip_former_findings :
   let empty := FFence 126 3 [] in
   let ws := FFence 96 3 [SLine 1 12288 []] in
   (wf_b empty = true /\ concat (text_of (spell empty)) = $"~~~" ++ [10] ++ $"~~~" ++ [10] /\
-   render_md (mkMopts false) None (fst (fst (parse_lines cfg_markdown (text_of (spell empty))))) = $"~~~" ++ [10; 10] ++ $"~~~" ++ [10]) /\
+   render_md (mkMopts false) None (fst (fst (parse_lines cfg_markdown (text_of (spell empty))))) = $"~~~" ++ [10] ++ $"~~~" ++ [10]) /\
   (wf_b ws = true /\ concat (text_of (spell ws)) = $"```" ++ [10; 32; 12288; 10] ++ $"```" ++ [10] /\
-   render_md (mkMopts false) None (fst (fst (parse_lines cfg_markdown (text_of (spell ws))))) = $"```" ++ [10; 10] ++ $"```" ++ [10]).
-Proof. exact round_trip_needs_rt_ok. Qed.
-Print Assumptions C09_fragment_round_trip_needs_side_conditions.
+   render_md (mkMopts false) None (fst (fst (parse_lines cfg_markdown (text_of (spell ws))))) = $"```" ++ [10; 32; 12288; 10] ++ $"```" ++ [10]).
+Proof. exact round_trip_former_findings. Qed.
+Print Assumptions C09_fragment_round_trip_former_findings.
 
 (* ... and with the text given as one string, as MarkdownRenderer().render(Document(text)) takes it *)
 From Mistletoe Require Import Proofs.FragmentHtml.
-Theorem C09_fragment_round_trip_text : forall t, wf_b t = true -> rt_ok t = true -> one_string_ok t = true ->
+Theorem C09_fragment_round_trip_text : forall t, wf_b t = true -> one_string_ok t = true ->
   render_md (mkMopts false) None (fst (fst (parse_document cfg_markdown (concat (text_of (spell t)))))) = concat (text_of (spell t)).
 Proof. exact fragment_round_trip_text. Qed.
 Print Assumptions C09_fragment_round_trip_text.
